@@ -210,8 +210,8 @@ def build(ctx):
             for shift in ("default", 1):
                 if not ctx.thorough and (T == 3 and body_name != "S.BS.M"):
                     continue
-                if ctx.thorough and (N, T) == (3, 4) and body_name != "S.BS.M":
-                    continue        # (the other bodies at N=3, T=4: portfolio queries of 10 min each, over an hour in total)
+                if ctx.thorough and ((N, T) == (3, 4) or ((N, T) == (3, 3) and body_name == "two_loops")):
+                    continue        # (N=3 with T=4, and two loops at N=3, T=3: more than 15 minutes per job -> outside)
                 ctx.add("loop.N%d.T%d.%s.shift=%s" % (N, T, body_name, shift), h_loop,
                         {"N": N, "T": T, "body_name": body_name, "shift": shift}, modules=mods, functions=fns,
                         bounds={"concurrent_modes": N, "timebins": T, "shots": 1, "bands": 1, "shift": shift,
